@@ -687,6 +687,38 @@ int main(int argc, char **argv)
     px->set_cell(false, 0, 0, 0);
   }
 
+  // wrap centre and period changed at run time (cv colvar <name> modifycvcs ...): the variable-level metric and wrap()
+  // follow the component's new parameters
+  {
+    double const dih_c2 = irand(-720, 720) / 4.0;
+    double const dz_P2 = irand(8, 160) / 8.0;
+    double const dz_c2 = irand(-160, 160) / 16.0;
+    colvar *cvd = cvm::colvar_by_name("cv_dihed_w");
+    colvar *cvz = cvm::colvar_by_name("cv_dz");
+    int rc2 = cvd->update_cvc_config(std::vector<std::string>(1, "wrapAround " + jnum(dih_c2) + "\n"));
+    rc2 |= cvz->update_cvc_config(std::vector<std::string>(1, "period " + jnum(dz_P2) + "\nwrapAround " + jnum(dz_c2) + "\n"));
+    rc2 |= px->engine_step(true, false);
+    if (rc2 != COLVARS_OK || cvm::get_error()) {
+      std::string o = "{\"k\":\"setup_failed\",\"rc\":" + std::to_string(rc2) + ",\"ncv\":-1," + errs_json() + "}";
+      puts(o.c_str());
+      fflush(stdout);
+      return 3;
+    }
+    size_t const first_new = subs.size();
+    add("periodic", colvarvalue::type_scalar, M_S1, 1, "cv_dihed_w", "dihedral_wrapAround_modified", 360.0, dih_c2);
+    add("periodic", colvarvalue::type_scalar, M_S1, 1, "cv_dz", "distanceZ_period_modified", dz_P2, dz_c2);
+    for (size_t k = first_new; k < subs.size(); k++) {
+      subject const &s = subs[k];
+      describe(s);
+      for (std::string const &cl : classes_of(s)) {
+        for (int i = 0; i < ncases; i++) {
+          run_pair(s, cl);
+          npairs++;
+        }
+      }
+    }
+  }
+
   run_constraints(ncases);
 
   std::string o = "{\"k\":\"end\",\"pairs\":" + std::to_string(npairs) + ",\"calls\":" + std::to_string(n_calls) + "}";
